@@ -4,6 +4,7 @@ package main
 
 import (
 	"fmt"
+	"os"
 	"go/constant"
 	"go/token"
 	"go/types"
@@ -70,6 +71,8 @@ type Exec struct {
 	opaquePtr map[*Cell]*Term
 	guardOrd map[ssa.Instruction]string
 	lemmas []*LemmaInst
+	elideCache map[*ssa.BasicBlock]*ssa.BasicBlock
+	assertedSites map[string]bool
 	covers int
 	loopHeapNames map[*ssa.BasicBlock]map[string]bool
 	fresh map[string]bool
@@ -596,7 +599,7 @@ func (x *Exec) newCell(name string, t types.Type) *Cell {
 func VerifyFunction(prog *Program, fn *ssa.Function, fc *FuncContract, sweep bool) (obs []*Obligation, rep *FuncReport) {
 	x := &Exec{prog: prog, fn: fn, fc: fc, obs: map[string]*Obligation{}, maxPaths: 6000,
 		safeOrd: map[ssa.Instruction]string{}, callOrd: map[ssa.Instruction]int{}, loopOrd: map[*ssa.BasicBlock]int{},
-		abstr: map[string]bool{}, externsUsed: map[string]bool{}, sweep: sweep, opaquePtr: map[*Cell]*Term{}, fresh: map[string]bool{}}
+		abstr: map[string]bool{}, externsUsed: map[string]bool{}, sweep: sweep, opaquePtr: map[*Cell]*Term{}, fresh: map[string]bool{}, assertedSites: map[string]bool{}, elideCache: map[*ssa.BasicBlock]*ssa.BasicBlock{}}
 	if fn.Pkg != nil {
 		x.pkg = fn.Pkg.Pkg
 	} else if fn.Parent() != nil && fn.Parent().Pkg != nil {
@@ -629,6 +632,26 @@ func VerifyFunction(prog *Program, fn *ssa.Function, fc *FuncContract, sweep boo
 }
 
 func (x *Exec) collect() []*Obligation {
+	if x.fc != nil && x.report.OutOfReach == "" {
+		existing := map[string]bool{}
+		for in, ord := range x.callOrd {
+			if ci, ok := in.(ssa.CallInstruction); ok {
+				existing[fmt.Sprintf("%s#%d", x.calleeName(ci.Common()), ord)] = true
+			}
+		}
+		for site, cls := range x.fc.CallAsserts {
+			if !existing[site] {
+				for _, a := range cls {
+					name := x.obName("assert", a.Label+"@"+site)
+					if x.obs[name] == nil {
+						x.obs[name] = &Obligation{Name: name, Fn: funcKey(x.fn), Kind: "assert", Label: a.Label, Clause: a.Text,
+							Queries: []*Query{{U: x.prog.U, Goal: False}}, Traces: [][]string{{"call site " + site + " does not exist in the function"}}}
+						x.obOrd = append(x.obOrd, name)
+					}
+				}
+			}
+		}
+	}
 	var out []*Obligation
 	for _, n := range x.obOrd {
 		out = append(out, x.obs[n])
@@ -670,7 +693,7 @@ func (x *Exec) number() {
 			case *ssa.MapUpdate:
 				kind = "nilmap"
 			case *ssa.BinOp:
-				if v.Op == token.QUO || v.Op == token.REM {
+				if (v.Op == token.QUO || v.Op == token.REM) && isInteger(v.X.Type()) {
 					kind = "div"
 				}
 			case *ssa.Send:
@@ -797,6 +820,11 @@ func (x *Exec) runBlock(st *State, b *ssa.BasicBlock) {
 			x.curInstr = in
 			switch v := in.(type) {
 			case *ssa.If:
+				if j := x.elidableIf(b); j != nil {
+					// both arms are effect-free and meet at j: no fork, the condition is not assumed either way
+					next = j
+					break
+				}
 				c := x.toTerm(st, x.get(st, v.Cond), types.Typ[types.Bool])
 				switch {
 				case isTrue(c):
@@ -862,6 +890,11 @@ func (x *Exec) resume(st *State, b *ssa.BasicBlock, after ssa.Instruction) {
 		x.curInstr = in
 		switch v := in.(type) {
 		case *ssa.If:
+			if j := x.elidableIf(b); j != nil {
+				st.pred = b
+				x.runBlock(st, j)
+				return
+			}
 			c := x.toTerm(st, x.get(st, v.Cond), types.Typ[types.Bool])
 			if !isFalse(c) {
 				a := st.clone()
@@ -904,6 +937,176 @@ func (x *Exec) resume(st *State, b *ssa.BasicBlock, after ssa.Instruction) {
 			}
 		}
 	}
+}
+
+// elidableIf: if block b ends in an If whose arms are effect-free straight-line blocks meeting at one join block,
+// return that join block. "Effect-free": only loads, address computations, interface boxing, local varargs arrays and
+// calls to functions without effect on modelled state, without preconditions and without safety obligations; no value
+// defined in an arm is used outside it.
+func (x *Exec) elidableIf(b *ssa.BasicBlock) *ssa.BasicBlock {
+	if v, ok := x.elideCache[b]; ok {
+		return v
+	}
+	var res *ssa.BasicBlock
+	defer func() { x.elideCache[b] = res }()
+	if len(b.Succs) != 2 {
+		return nil
+	}
+	t, f := b.Succs[0], b.Succs[1]
+	if _, isHeader := x.loopOrd[t]; isHeader {
+		return nil
+	}
+	if _, isHeader := x.loopOrd[f]; isHeader {
+		return nil
+	}
+	armTo := func(arm *ssa.BasicBlock) *ssa.BasicBlock {
+		if len(arm.Preds) != 1 || len(arm.Succs) != 1 {
+			return nil
+		}
+		if !x.effectFreeBlock(arm) {
+			return nil
+		}
+		return arm.Succs[0]
+	}
+	switch {
+	case t == f:
+		res = t
+	case armTo(t) == f && armTo(t) != nil:
+		res = f
+	case armTo(f) == t && armTo(f) != nil:
+		res = t
+	case armTo(t) != nil && armTo(t) == armTo(f):
+		res = armTo(t)
+	}
+	if res != nil {
+		if _, isHeader := x.loopOrd[res]; isHeader {
+			res = nil
+		}
+	}
+	return res
+}
+
+func (x *Exec) effectFreeBlock(arm *ssa.BasicBlock) (ok bool) {
+	local := map[ssa.Value]bool{}
+	var culprit ssa.Instruction
+	if os.Getenv("GOVC_DEBUG") != "" {
+		defer func() {
+			if !ok && culprit != nil {
+				fmt.Fprintf(os.Stderr, "not effect-free: %s block %d: %s (%T)\n", x.fn.Name(), arm.Index, culprit, culprit)
+			}
+		}()
+	}
+	for _, in := range arm.Instrs {
+		culprit = in
+		if _, has := x.safeOrd[in]; has {
+			switch ia := in.(type) {
+			case *ssa.IndexAddr:
+				// index into a local varargs array with a constant index is fine
+				if a, ok := ia.X.(*ssa.Alloc); !ok || !local[a] {
+					return false
+				}
+				if _, isConst := ia.Index.(*ssa.Const); !isConst {
+					return false
+				}
+			case *ssa.Slice:
+				// t[:] of a local varargs array
+				if a, ok := ia.X.(*ssa.Alloc); !ok || !local[a] || ia.Low != nil || ia.High != nil {
+					return false
+				}
+			default:
+				return false
+			}
+		}
+		switch v := in.(type) {
+		case *ssa.DebugRef, *ssa.Jump:
+		case *ssa.Alloc:
+			if v.Heap && !onlyIndexedAndSliced(v) {
+				return false
+			}
+			local[v] = true
+		case *ssa.Store:
+			root, ok := rootAlloc(v.Addr)
+			if !ok || !local[root] {
+				return false
+			}
+		case *ssa.UnOp:
+			if v.Op == token.ARROW {
+				return false
+			}
+			if x.guardOrd[in] != "" {
+				return false
+			}
+		case *ssa.FieldAddr, *ssa.Field, *ssa.IndexAddr, *ssa.MakeInterface, *ssa.Slice, *ssa.BinOp, *ssa.Convert, *ssa.ChangeType, *ssa.ChangeInterface, *ssa.Extract, *ssa.Lookup:
+			if x.guardOrd[in] != "" {
+				return false
+			}
+		case *ssa.Call:
+			if !x.effectFreeCall(v.Common()) {
+				return false
+			}
+		default:
+			return false
+		}
+		if val, ok := in.(ssa.Value); ok {
+			if refs := val.Referrers(); refs != nil {
+				for _, r := range *refs {
+					if r.Block() != arm {
+						return false
+					}
+				}
+			}
+		}
+	}
+	return true
+}
+
+func (x *Exec) effectFreeCall(c *ssa.CallCommon) bool {
+	if c.IsInvoke() {
+		recvT := c.Value.Type()
+		if named, ok := recvT.(*types.Named); ok && named.Obj().Pkg() != nil && x.prog.Spec.PkgFrames[named.Obj().Pkg().Path()] {
+			return true
+		}
+		if fc, ok := x.prog.Contracts[ifaceMethodKey(recvT, c.Method.Name())]; ok {
+			return fc.Pure && len(fc.Requires) == 0 && len(fc.GhostSets) == 0
+		}
+		return false
+	}
+	if b, ok := c.Value.(*ssa.Builtin); ok {
+		switch b.Name() {
+		case "len", "cap":
+			return true
+		}
+		return false
+	}
+	f := c.StaticCallee()
+	if f == nil {
+		return false
+	}
+	key := funcKey(f)
+	if f.Origin() != nil {
+		key = funcKey(f.Origin())
+	}
+	switch key {
+	case "fmt.Sprintf", "fmt.Errorf", "errors.New":
+		return true
+	}
+	if f.Pkg != nil && x.prog.Spec.PkgFrames[f.Pkg.Pkg.Path()] {
+		return true
+	}
+	// methods of types declared in an effect-free package
+	if recv := f.Signature.Recv(); recv != nil {
+		t := recv.Type()
+		if pt, ok := t.(*types.Pointer); ok {
+			t = pt.Elem()
+		}
+		if named, ok := t.(*types.Named); ok && named.Obj().Pkg() != nil && x.prog.Spec.PkgFrames[named.Obj().Pkg().Path()] {
+			return true
+		}
+	}
+	if fc, ok := x.prog.Contracts[key]; ok {
+		return fc.Pure && len(fc.Requires) == 0 && len(fc.GhostSets) == 0 && len(fc.Allocates) == 0
+	}
+	return false
 }
 
 func (x *Exec) checkPathBudget() {
@@ -1180,6 +1383,8 @@ func (x *Exec) atReturn(st *State, r *ssa.Return) {
 	for k := range res {
 		ctx.shadow[k] = true
 	}
+	// ghost assignments of the function's own contract happen at return
+	x.applyGhostSets(st, x.fc, ctx)
 	for _, c := range x.fc.Ensures {
 		t := x.evalBool(ctx, c)
 		x.oblige(st, "ensures", c.Label, t, c.Text)
